@@ -11,7 +11,7 @@ From RV Require Import Grammar.Model Grammar.Proofs Grammar.Reader.
 Local Open Scope N_scope.
 
 Lemma nt_uriref_src_pinned : nt_uriref_src =
-  [60; 40; 91; 94; 58; 93; 43; 58; 91; 94; 92; 115; 34; 60; 62; 93; 42; 41; 62].
+  [60; 40; 91; 94; 58; 93; 43; 58; 91; 94; 92; 120; 48; 48; 45; 92; 120; 50; 48; 34; 60; 62; 93; 42; 41; 62].
 Proof. reflexivity. Qed.
 
 Lemma nt_literal_src_pinned : nt_literal_src =
@@ -19,7 +19,7 @@ Lemma nt_literal_src_pinned : nt_literal_src =
 Proof. reflexivity. Qed.
 
 Lemma nt_litinfo_src_pinned : nt_litinfo_src =
-  [40; 63; 58; 64; 40; 91; 97; 45; 122; 65; 45; 90; 93; 43; 40; 63; 58; 45; 91; 97; 45; 122; 65; 45; 90; 48; 45; 57; 93; 43; 41; 42; 41; 124; 92; 94; 92; 94; 60; 40; 91; 94; 58; 93; 43; 58; 91; 94; 92; 115; 34; 60; 62; 93; 42; 41; 62; 41; 63].
+  [40; 63; 58; 64; 40; 91; 97; 45; 122; 65; 45; 90; 93; 43; 40; 63; 58; 45; 91; 97; 45; 122; 65; 45; 90; 48; 45; 57; 93; 43; 41; 42; 41; 124; 92; 94; 92; 94; 60; 40; 91; 94; 58; 93; 43; 58; 91; 94; 92; 120; 48; 48; 45; 92; 120; 50; 48; 34; 60; 62; 93; 42; 41; 62; 41; 63].
 Proof. reflexivity. Qed.
 
 Lemma nt_r_wspace_src_pinned : nt_r_wspace_src =
@@ -95,8 +95,8 @@ Proof. vm_compute. reflexivity. Qed.
 
 (* ====================================================================== completeness of the line reader
    Every statement the strict W3C reader accepts is read by rdflib's reader (as repaired by 4cbe7459) with the same
-   meaning, outside the regions of findings C05f (non-ASCII blank node label), C05g (raw Unicode white space in an
-   IRIREF) and C05h (no colon written as such in an IRIREF). *)
+   meaning, outside the regions of findings C05f (non-ASCII blank node label) and C05h (no colon written as such in an
+   IRIREF). *)
 
 (* ---- boolean comparisons to Prop *)
 Ltac b2p :=
@@ -303,21 +303,20 @@ Proof.
   - right. eauto.
 Qed.
 
-Lemma uri_tail_rawc : forall c, iri_rawc c = true -> wide_space c = false -> uri_tail_char c = true.
+Lemma uri_tail_rawc : forall c, iri_rawc c = true -> uri_tail_char c = true.
 Proof.
-  intros c H W. unfold iri_rawc in H. apply andb_true_iff in H. destruct H as [Hlt Hne].
-  apply negb_true_iff in Hne. unfold wide_space in W. unfold uri_tail_char.
-  assert (Hs : py_re_space c = false).
-  { destruct (py_re_space c); [|reflexivity]. simpl in W. b2p. lia. }
+  intros c H. unfold iri_rawc in H. apply andb_true_iff in H. destruct H as [Hlt Hne].
+  apply negb_true_iff in Hne. unfold uri_tail_char. apply N.ltb_lt in Hlt.
+  assert (Hs : (c <=? 32) = false) by (apply N.leb_gt; lia).
   rewrite Hs. cbn [orb]. rewrite Hne. reflexivity.
 Qed.
 
 Lemma rd_uriref_raw_ok : forall raw r,
-  forallb iri_rawc raw = true -> existsb wide_space raw = false -> memN 58 raw = true ->
+  forallb iri_rawc raw = true -> memN 58 raw = true ->
   match raw with c :: _ => (c =? 58) = false | [] => False end ->
   rd_uriref_raw (60 :: raw ++ 62 :: r) = Some (raw, r).
 Proof.
-  intros raw r Hc Hw Hm Hh.
+  intros raw r Hc Hm Hh.
   destruct (memN_split_first 58 raw Hm) as [pre [post [E Hpre]]]. subst raw.
   destruct pre as [|p0 pre]; [cbn [app] in Hh; rewrite N.eqb_refl in Hh; discriminate|].
   unfold rd_uriref_raw. change (60 =? 60) with true. cbv iota.
@@ -326,14 +325,11 @@ Proof.
   rewrite (span_app (fun c => negb (c =? 58)) (p0 :: pre) 58 (post ++ 62 :: r) Hpre) by reflexivity.
   rewrite forallb_app in Hc. apply andb_true_iff in Hc. destruct Hc as [_ Hc]. cbn [forallb] in Hc.
   apply andb_true_iff in Hc. destruct Hc as [_ Hc].
-  apply existsb_app_false in Hw. destruct Hw as [_ Hw]. cbn [existsb] in Hw. apply orb_false_iff in Hw. destruct Hw as [_ Hw].
   assert (Hpost : forallb uri_tail_char post = true).
-  { apply forallb_forall. intros c Hin. apply uri_tail_rawc.
-    - rewrite forallb_forall in Hc. auto.
-    - eapply existsb_false_forall; eauto. }
+  { apply forallb_forall. intros c Hin. apply uri_tail_rawc. rewrite forallb_forall in Hc. auto. }
   rewrite (span_app uri_tail_char post 62 r Hpost).
   - change (62 =? 62) with true. cbv iota. reflexivity.
-  - unfold uri_tail_char. change (62 =? 62) with true. rewrite !orb_true_r. reflexivity.
+  - reflexivity.
 Qed.
 
 (* an IRIREF of the grammar is read by the reader's regular expression + unquote to the same IRI *)
@@ -347,9 +343,7 @@ Proof.
   destruct (iri_body_raw _ _ _ _ Eb) as [raw [H1 [H2 [H3 H4]]]]. subst l.
   replace (60 :: raw ++ 62 :: r) with ((60 :: raw ++ [62]) ++ r) in K by (cbn [app]; rewrite <- app_assoc; reflexivity).
   rewrite raw_of_app in K. unfold iri_raw_kf in K.
-  destruct (existsb wide_space (60 :: raw ++ [62])) eqn:Ew; [discriminate|].
   destruct (memN 58 (60 :: raw ++ [62])) eqn:Em; [|discriminate].
-  cbn [existsb] in Ew. apply orb_false_iff in Ew. destruct Ew as [_ Ew]. apply existsb_app_false in Ew. destruct Ew as [Ew _].
   cbn [memN] in Em. change (58 =? 60) with false in Em. cbn [orb] in Em. rewrite memN_app in Em.
   cbn [memN] in Em. change (58 =? 62) with false in Em. cbn [orb] in Em. rewrite orb_false_r in Em.
   exists raw. split.
